@@ -4,8 +4,10 @@ package main
 // is the drop flag / in-flight / rtt in the function that stores it, how stores are classified on a path.
 
 import (
+	"fmt"
 	"go/token"
 	"go/types"
+	"sort"
 	"strings"
 
 	"gclverify/xt/ssa"
@@ -18,7 +20,59 @@ type algoFn struct {
 	InFlight *ssa.Parameter
 	RTT      *ssa.Parameter
 	Stores   []FieldAccess
+	Keys     []string // position-independent name of each store: the receiver fields its value is computed from
 	Entry    []symFact
+}
+
+// storeKeys names each store of the estimate by what its value is computed from: the sorted names of the receiver's
+// fields read (transitively through SSA operands, inside the function) by the stored value. The name does not depend
+// on line numbers, block order or how the expression is spread over locals and helpers that were inlined.
+func storeKeys(t *types.Named, sites []FieldAccess) []string {
+	keys := make([]string, len(sites))
+	seenKey := map[string]int{}
+	for i, s := range sites {
+		fields := map[string]bool{}
+		seen := map[ssa.Value]bool{}
+		var walk func(v ssa.Value, d int)
+		walk = func(v ssa.Value, d int) {
+			if v == nil || seen[v] || d > 60 || len(seen) > 600 {
+				return
+			}
+			seen[v] = true
+			if fr, _, ok := loadedField(v); ok && fr.Type != nil && types.Identical(fr.Type, t) {
+				fields[fr.Name] = true
+				return
+			}
+			if fa, ok := v.(*ssa.FieldAddr); ok {
+				if fr, _, ok := fieldOf(fa); ok && fr.Type != nil && types.Identical(fr.Type, t) {
+					fields[fr.Name] = true
+					return
+				}
+			}
+			ins, ok := v.(ssa.Instruction)
+			if !ok {
+				return
+			}
+			for _, op := range ins.Operands(nil) {
+				if op != nil && *op != nil {
+					walk(*op, d+1)
+				}
+			}
+		}
+		walk(s.Val, 0)
+		var names []string
+		for n := range fields {
+			names = append(names, n)
+		}
+		sort.Strings(names)
+		k := "store(" + strings.Join(names, "+") + ")"
+		seenKey[k]++
+		if seenKey[k] > 1 {
+			k = fmt.Sprintf("%s#%d", k, seenKey[k])
+		}
+		keys[i] = k
+	}
+	return keys
 }
 
 // algoFuncs: for each adaptive algorithm, the functions that store the estimate, with OnSample's parameters mapped
@@ -43,7 +97,7 @@ func algoFuncs(p *Prog, l *Ledger) []*algoFn {
 			if len(sites) == 0 {
 				continue
 			}
-			af := &algoFn{A: a, Fn: f, Stores: sites, Entry: p.EntryFacts(f)}
+			af := &algoFn{A: a, Fn: f, Stores: sites, Keys: storeKeys(a.T, sites), Entry: p.EntryFacts(f)}
 			if f == on {
 				af.RTT, af.InFlight, af.Drop = on.Params[2], on.Params[3], on.Params[4]
 			} else {
@@ -172,8 +226,8 @@ func funcFieldRoles(p *Prog, T *types.Named) (map[int]string, []string) {
 				continue
 			}
 			for _, v := range storesInto(al, FieldRef{T, i, st.Field(i).Name()}) {
-				// phi(param, default closure)
-				var closures []*ssa.Function
+				// phi(param, default): the default is a closure, or a method value of a small carrier struct
+				var defaults []*ssa.Function
 				var walk func(v ssa.Value, d int)
 				walk = func(v ssa.Value, d int) {
 					if d > 4 {
@@ -185,25 +239,31 @@ func funcFieldRoles(p *Prog, T *types.Named) (map[int]string, []string) {
 							walk(e, d+1)
 						}
 					case *ssa.MakeClosure:
-						closures = append(closures, x.Fn.(*ssa.Function))
+						if fn, _ := p.funcValueFrame(x, nil); fn != nil && fn.Blocks != nil {
+							defaults = append(defaults, fn)
+						}
 					}
 				}
 				walk(v, 0)
-				for _, cl := range closures {
+				for _, cl := range defaults {
+					if len(cl.Params) == 0 {
+						continue
+					}
+					arg := ssa.Value(cl.Params[len(cl.Params)-1])
 					allInstrs(cl, func(ins ssa.Instruction) {
 						ret, ok := ins.(*ssa.Return)
 						if !ok || len(ret.Results) != 1 {
 							return
 						}
 						bo, ok := strip(ret.Results[0], false).(*ssa.BinOp)
-						if !ok || strip(bo.X, false) != ssa.Value(cl.Params[0]) {
-							problems = append(problems, p.Key(cl)+": default closure is not of the form x +/- g(x)")
+						if !ok || strip(bo.X, false) != arg {
+							problems = append(problems, p.Key(cl)+": default step function is not of the form x +/- g(x)")
 							return
 						}
 						// g(x): a call whose argument is the parameter; g >= 0 is established for the built-in table functions
 						call, ok := strip(bo.Y, false).(*ssa.Call)
-						if !ok || len(call.Call.Args) != 1 || strip(call.Call.Args[0], false) != ssa.Value(cl.Params[0]) {
-							problems = append(problems, p.Key(cl)+": the step of the default closure is not g(x)")
+						if !ok || len(call.Call.Args) != 1 || strip(call.Call.Args[0], false) != arg {
+							problems = append(problems, p.Key(cl)+": the step of the default step function is not g(x)")
 							return
 						}
 						switch bo.Op {
